@@ -4,6 +4,7 @@ import (
 	"crypto/sha256"
 	"encoding/hex"
 	"fmt"
+	"os"
 	"regexp"
 	"sort"
 	"strings"
@@ -259,6 +260,13 @@ func (r *Run) Settle() {
 				}
 			}
 		}
+		if schedTrace {
+			var names []string
+			for _, c := range cand {
+				names = append(names, fmt.Sprintf("%s#%d@%d", shortSig(c.Sig), c.MID, c.Since))
+			}
+			r.Logf("sched pick=%d of %v", idx, names)
+		}
 		if !r.Sched.Grant(cand[idx]) {
 			r.Troublef("grant of enabled waiter failed: %s", cand[idx].Sig)
 		}
@@ -370,4 +378,16 @@ func (r *Run) sampleState() {
 		r.Trans[r.lastState+" -> "+s] = struct{}{}
 	}
 	r.lastState = s
+}
+
+var schedTrace = os.Getenv("VERIF_SCHED_TRACE") != ""
+
+func shortSig(s string) string {
+	if i := strings.Index(s, "<"); i > 0 {
+		s = s[:i]
+	}
+	if i := strings.LastIndex(s, "/"); i >= 0 {
+		s = s[i+1:]
+	}
+	return s
 }
